@@ -434,6 +434,9 @@ func runCheck(id, tier string) (code int) {
 	defer func() {
 		if r := recover(); r != nil {
 			if u, ok := r.(Undecided); ok {
+				if os.Getenv("AKVERIF_SUB") != "" {
+					fmt.Printf("SUBSTATUS undecided: %s\n", u.Msg)
+				}
 				fmt.Fprintf(os.Stderr, "UNDECIDED %s: %s\n", id, u.Msg)
 			} else {
 				fmt.Fprintf(os.Stderr, "PANIC %s: %v\n", id, r)
@@ -442,10 +445,29 @@ func runCheck(id, tier string) (code int) {
 			code = 2
 		}
 	}()
-	c.L = Load(repoDir(), false, false)
+	if pf := os.Getenv("AKVERIF_OVERLAY"); pf != "" {
+		// variant run (thorough self-validation): the patch is applied in memory only
+		ov, err := overlayForPatch(repoDir(), pf)
+		if err != nil {
+			fmt.Printf("SUBSTATUS skipped: %v\n", err)
+			return 0
+		}
+		c.L = LoadWith(repoDir(), ov, nil)
+	} else {
+		c.L = Load(repoDir(), false, false)
+	}
 	curL = c.L
 	transpMemo = nil
 	fn(c)
+	if os.Getenv("AKVERIF_SUB") != "" {
+		for _, o := range c.Obs {
+			if !o.OK && !o.Info {
+				fmt.Printf("SUBKEY %s\n", o.Key())
+			}
+		}
+		fmt.Println("SUBSTATUS decided")
+		return 0
+	}
 	if tier == "thorough" {
 		runThorough(c, fn)
 		if tf := thoroughRegistry[id]; tf != nil {
